@@ -113,7 +113,7 @@ def int_not_float_exact(v):
     return isinstance(v, int) and not isinstance(v, bool) and int(float(v)) != v or (isinstance(v, int) and abs(v) > 2**63 - 1)
 
 
-def run_blackbox(tier):
+def run_blackbox(tier, only_case=None):
     """Returns a list with one report dict (same keys as the Go kit writes)."""
     t0 = time.time()
     scratch = checklib.scratch_root("C06bb")
@@ -132,7 +132,7 @@ def run_blackbox(tier):
         st, _ = srv.query("create database c06", method="POST")
         if st != 200:
             raise blackbox.ToolError("create database failed: %s" % st)
-        cases = list(gen_cases(tier))
+        cases = [only_case] if only_case else list(gen_cases(tier))
         accepted = []
         # write one request per case so that a rejection is attributable
         def wr(c):
@@ -159,7 +159,7 @@ def run_blackbox(tier):
                     raise blackbox.ToolError("write returned %s: %s" % (st, body[:200]))
         # invalid lines: alone, and after a valid line of another measurement
         inv_stored = 0
-        for i, bad in enumerate(INVALID_LINES):
+        for i, bad in enumerate([] if only_case else INVALID_LINES):
             name = "bad%d" % i
             line = bad.replace("m", name, 1) if bad.startswith("m") else bad
             st, body = srv.write("c06", line)
